@@ -1165,7 +1165,7 @@ fn main() {
         fixed.push((Entry::Stm(Ty::MTree), Input { kind: "witness-count".into(), bytes: b, expect: None, note: format!("leaf count {}", n) }));
     }
 
-    let n_rand: u64 = if args.thorough { 150_000 } else { 6_000 };
+    let n_rand: u64 = if args.thorough { 400_000 } else { 20_000 };
     let total = fixed.len() as u64 + n_rand;
     let mut fixed_it = fixed.into_iter();
     for _ in 0..total {
